@@ -771,7 +771,9 @@ def _parts(g):
 
 def innermost(kind, x, y):
     """Class to blame for a pair failure: descend into the inner gates while an
-    inner pair shows the same failure."""
+    inner pair shows the same failure.  ':name' is appended when the innermost
+    pair are two equal CircuitGates whose operations hash alike but whose names
+    (str of the operations' gates) differ."""
     a, b = x.g, y.g
     for _ in range(8):
         pa, pb = _parts(a), _parts(b)
@@ -788,29 +790,16 @@ def innermost(kind, x, y):
         if nxt is None:
             break
         a, b = nxt
-    return type(a).__name__
-
-
-def _detail(kind, x, y):
-    """':name' when two equal CircuitGates whose operations hash alike hash differently
-    because their names (str of the operations' gates) differ"""
-    if kind != 'hash-eq':
-        return ''
-    a, b = x.g, y.g
-    for _ in range(8):
-        if type(a).__name__ == 'CircuitGate' and type(b).__name__ == 'CircuitGate':
-            try:
-                if a.name != b.name and [hash(o) for o in a._circuit] == \
-                        [hash(o) for o in b._circuit]:
-                    return ':name'
-            except Exception:
-                pass
-            return ''
-        if hasattr(a, 'gate') and hasattr(b, 'gate'):
-            a, b = a.gate, b.gate
-        else:
-            return ''
-    return ''
+    det = ''
+    if kind == 'hash-eq' and type(a).__name__ == 'CircuitGate' \
+            and type(b).__name__ == 'CircuitGate':
+        try:
+            if a.name != b.name and [hash(o) for o in a._circuit] == \
+                    [hash(o) for o in b._circuit]:
+                det = ':name'
+        except Exception:
+            pass
+    return type(a).__name__ + det
 
 
 def innermost_unhashable(g):
@@ -911,7 +900,7 @@ def check_identity(ck, found, base_specs, rng, thorough):
             pending[sig] = (size, what, rep, found_input)
 
     def report_pair(kind, text, x, y):
-        report(kind, innermost(kind, x, y) + _detail(kind, x, y),
+        report(kind, innermost(kind, x, y),
                f'a = {x.expr}; b = {y.expr}: {text}',
                {'a_expr': x.expr, 'b_expr': y.expr, 'params': point(x.np_), 'oracle': kind})
 
@@ -1059,7 +1048,7 @@ def replay_pair(rp):
     for x, y in it.combinations(xs, 2):
         fs, _e = pair_failures(x, y)
         for kind, text in fs:
-            out.append((kind, innermost(kind, x, y) + _detail(kind, x, y),
+            out.append((kind, innermost(kind, x, y),
                         f'a = {x.expr}; b = {y.expr}: {text}'))
     if len(xs) == 3:
         a, b, c = (v.g for v in xs)
